@@ -59,6 +59,10 @@ pub struct Nested {
     pub b: String,
 }
 
+/// The message type of user-supplied (overriding) entry points: any JSON object.
+#[cosmwasm_schema::cw_serde]
+pub struct OvMsg {}
+
 pub type Deps = OwnedDeps<MockStorage, MockApi, MockQuerier>;
 
 // ------------------------------------------------------------------------------------------------
@@ -119,6 +123,16 @@ pub mod rec {
         Value::Object(base(&c.env, c.deps.storage, &c.deps.querier))
     }
 
+    /// Context projection for user-supplied entry point functions (they get deps/env/info, not a ctx struct).
+    pub fn ctx_raw(env: &Env, s: &dyn Storage, q: &QuerierWrapper, info: Option<&MessageInfo>) -> Value {
+        let mut m = base(env, s, q);
+        if let Some(i) = info {
+            m.insert("sender".into(), json!(i.sender.to_string()));
+            m.insert("funds".into(), funds(&i.funds));
+        }
+        Value::Object(m)
+    }
+
     /// Called first thing by every echo handler, with its own literal identity.
     pub fn handler(prog: &str, part: &str, name: &str, kind: &str, args: Vec<(&str, Value)>, ctx: Value) {
         let args: Vec<Value> = args.into_iter().map(|(n, j)| json!({"n": n, "json": j})).collect();
@@ -135,7 +149,8 @@ pub mod rec {
     /// The funds the handler was handed, in the order it saw them.
     pub fn touch_funds(s: &mut dyn Storage, f: &[Coin]) {
         let t: Vec<String> = f.iter().map(|c| format!("{}{}", c.amount, c.denom)).collect();
-        s.set(b"verif_funds", t.join(",").as_bytes());
+        let text = if t.is_empty() { "-".to_string() } else { t.join(",") };      // (an empty value cannot be stored)
+        s.set(b"verif_funds", text.as_bytes());
     }
 
     pub fn resp<E: From<HandlerErr>>(name: &str, code: u32, ok: bool) -> Result<Response, E> {
@@ -338,7 +353,10 @@ pub fn run_program(vt: &ProgVt, prog: &Value) {
     let candidates: Vec<String> = prog["candidates"].as_array().map(|a| a.iter().filter_map(|v| v.as_str().map(String::from)).collect()).unwrap_or_default();
     let stims = prog["stim"].as_array().cloned().unwrap_or_default();
     for (seq, s) in stims.iter().enumerate() {
-        flight(vt, seq, s, &candidates, &["ep", "mt"]);
+        let vias: Vec<String> = s.get("vias").and_then(|v| v.as_array()).map(|a| a.iter().filter_map(|x| x.as_str().map(String::from)).collect())
+            .unwrap_or_else(|| vec!["ep".to_string(), "mt".to_string()]);
+        let vr: Vec<&str> = vias.iter().map(|x| x.as_str()).collect();
+        flight(vt, seq, s, &candidates, &vr);
     }
     if let Some(f) = vt.mt_histories {
         let h = prog.get("histories").cloned().unwrap_or(json!([]));
@@ -398,8 +416,9 @@ pub fn flight(vt: &ProgVt, seq: usize, s: &Value, candidates: &[String], vias: &
             Ok(CallOut::Absent) => {
                 rt::emit(json!({"ev":"Absent","prog":id,"ep":kind}));
             }
-            Err(_) => {
-                rt::emit(json!({"ev":"Panic","prog":id,"where":"call","msg":"panic in entry point"}));
+            Err(e) => {
+                let m = e.downcast_ref::<&str>().map(|s| s.to_string()).or_else(|| e.downcast_ref::<String>().cloned()).unwrap_or_default();
+                rt::emit(json!({"ev":"Panic","prog":id,"where":"call","msg":m}));
             }
         }
     }
